@@ -67,7 +67,47 @@ class Scenario:
             t = synapgrad.tensor([[x[0, 0], x[0, 1]], [x[1, 0], x[1, 1]]]) if not env.sym else Tn(x)
             out.pair("tensor(nested list)", t.data, x)
             out.fact("tensor(..., requires_grad=True) requires grad", synapgrad.tensor([1.0, 2.0], requires_grad=True).requires_grad)
+            # the optional arguments of every constructor: dtype, requires_grad (float constructors)
+            f64 = np.float64
+            for nm, t, shape, val in (
+                    ("eye(2, dtype=float64)", synapgrad.eye(2, dtype=f64), (2, 2), None),
+                    ("ones_like(x32, dtype=float64)", synapgrad.ones_like(Tn(env.const(np.zeros((2,)), np.float32)), dtype=f64), (2,), 1.0),
+                    ("zeros_like(x32, dtype=float64)", synapgrad.zeros_like(Tn(env.const(np.ones((2,)), np.float32)), dtype=f64), (2,), 0.0),
+                    ("ones(2, dtype=float64)", synapgrad.ones(2, dtype=f64), (2,), 1.0),
+                    ("zeros((1, 2), dtype=float64)", synapgrad.zeros((1, 2), dtype=f64), (1, 2), 0.0),
+                    ("arange(3, dtype=float64)", synapgrad.arange(3, dtype=f64), (3,), None)):
+                out.fact("%s has the requested dtype" % nm, str(t.dtype) == "float64", "dtype %s" % t.dtype)
+                out.fact("%s has shape %s" % (nm, shape), tuple(t.shape) == shape, "got %s" % (tuple(t.shape),))
+                if val is not None:
+                    out.pair("%s values" % nm, t.data, np.full(shape, val))
+            out.pair("eye(2, dtype=float64) values", synapgrad.eye(2, dtype=f64).data, np.eye(2))
+            for nm, mk in (("ones(2, requires_grad=True)", lambda: synapgrad.ones(2, requires_grad=True)),
+                           ("zeros(2, requires_grad=True)", lambda: synapgrad.zeros(2, requires_grad=True)),
+                           ("eye(2, requires_grad=True)", lambda: synapgrad.eye(2, requires_grad=True)),
+                           ("arange(3, requires_grad=True)", lambda: synapgrad.arange(3, requires_grad=True)),
+                           ("ones_like(x, requires_grad=True)", lambda: synapgrad.ones_like(Tn(env.const(np.zeros((2,)), np.float32)), requires_grad=True)),
+                           ("zeros_like(x, requires_grad=True)", lambda: synapgrad.zeros_like(Tn(env.const(np.zeros((2,)), np.float32)), requires_grad=True))):
+                t = mk()
+                out.fact("%s requires grad and is a leaf" % nm, bool(t.requires_grad) and bool(t.is_leaf))
             return out
+        if n == "random_constructors":
+            # rand / randn / normal / randint: shape (both spellings), default and requested dtype, requires_grad, and the
+            # documented range / affine image of the draws
+            from ..symnum import array as ar_
+            checks_ = []
+            r1 = synapgrad.rand(2, 3)
+            r2 = synapgrad.rand((2, 1), dtype=np.float64, requires_grad=True)
+            z1 = synapgrad.randn(3)
+            z2 = synapgrad.randn([1, 2], dtype=np.float64)
+            for nm, t, shape, dt, req in (("rand(2,3)", r1, (2, 3), "float32", False), ("rand((2,1), float64, requires_grad)", r2, (2, 1), "float64", True),
+                                          ("randn(3)", z1, (3,), "float32", False), ("randn([1,2], float64)", z2, (1, 2), "float64", False)):
+                out.fact("%s: shape, dtype, requires_grad" % nm, tuple(t.shape) == shape and str(t.dtype) == dt and bool(t.requires_grad) == req,
+                         "shape %s dtype %s requires_grad %s" % (tuple(t.shape), t.dtype, t.requires_grad))
+            out.claim("rand values >= 0", r1.data, ">=", 0.0)
+            out.claim("rand values < 1", r1.data, "<", 1.0)
+            nrm = synapgrad.normal(2.0, 0.5, 2, 2)
+            out.fact("normal(2.0, 0.5, 2, 2): shape and dtype", tuple(nrm.shape) == (2, 2) and str(nrm.dtype) == "float32", "shape %s dtype %s" % (tuple(nrm.shape), nrm.dtype))
+            return out      # (randint is not modelled by the RNG stub: integer draws have no symbolic counterpart here)
         if n == "constructors_dtype":
             # a requested dtype is honoured for the *values* too: nothing is rounded through the default float32 on the way
             f64, i64 = np.float64, np.int64
@@ -122,7 +162,7 @@ class Scenario:
         raise ValueError(n)
 
 
-SCENARIOS = ["constructors", "constructors_dtype", "iteration", "iteration_grad", "nested_iteration", "interleaved_iteration"]
+SCENARIOS = ["constructors", "constructors_dtype", "random_constructors", "iteration", "iteration_grad", "nested_iteration", "interleaved_iteration"]
 
 
 def build(spec):
